@@ -1303,8 +1303,8 @@ def check_revert(prog: Program, res: Result) -> None:
                 "if not has_covered_neighbor" in after:
             res.ok("R-REVERT-SHAPE", inst, fi.loc(loop))
         else:
-            res.bad("R-REVERT-SHAPE", f"_revert_state side {s_}: removed atom",
-                    fi.loc(loop), f"{inst}: pattern not found", instance=inst)
+            res.unrecognised("R-REVERT-SHAPE", inst, fi.loc(loop),
+                             "bookkeeping of the removed atom")
     if sides != 2:
         res.error(f"R-REVERT-SHAPE: {sides} neighbour loops recognised in "
                   "_revert_state (expected one per graph)")
